@@ -4,6 +4,7 @@ from .. import common, codec, coqrun, filerun
 
 TRUSTED = [
     'Coq 8.16.1 kernel (no native_compute)',
+    'translator/blf2coq.py: the read/write programs C08_stream_prefix speaks about are regenerated from /repo on every run (tied by the codec correspondence of C01/C03)',
     'hand-written model Lib/FileModel.read_session — tied to the code by this run on every cut offset generated',
     'independent container walk: vlib/filerun.parse_blf (Python struct + zlib)',
     'extraction (ExtrOcamlBasic only) + ocaml/driver.ml; harness/file.cpp (ASan+UBSan, watchdog)',
@@ -35,7 +36,7 @@ def expected_prefix(full_objs, encs, data, k):
 
 def run(v, tier, seed, replay=None):
     meta, _ = common.translate()
-    ok, failed, info = coqrun.prove(v, 'C08', [])
+    ok, failed, info = coqrun.prove(v, 'C08', ['Inst/StreamRT.v', 'Inst/PrefixEq.v', 'Inst/TermEq.v'])
     res = filerun.run(meta, seed, tier)
     full = {}
     for r in res['r']:
@@ -91,7 +92,7 @@ def run(v, tier, seed, replay=None):
         'evaluations': checked, 'distinct_nontrivial': len(set((id(r['of']), r['cut']) for r in res['r'] if r['mode'] == 'trunc' and r['cut'] > 144)),
         'rule': 'every file of the file-layer run (levels 0-9, container sizes that split objects and object headers, restore points on/off, both header variants are the same bytes here because the model rewrites the header in place) cut at offsets {0,1,3,4,143..145,160,175..177,L-33,L-4,L-2,L-1} plus random offsets (every offset of files up to 700 bytes in thorough); the real reader under a watchdog must throw the library exception or deliver exactly the objects wholly inside completely stored containers (independent container walk), identical to those of the full read, then end; monotone in the offset. Non-trivial = distinct (file, offset beyond the header).',
         'cuts_checked': checked, 'correspondence_disagreements': ndis, 'oracle_failures': bad,
-        'theorems': ['C08_cut_structure', 'C08_monotone', 'C08_complete_file'],
+        'theorems': ['C08_cut_structure', 'C08_monotone', 'C08_complete_file', 'C08_stream_prefix', 'C08_stream_prefix_example'],
     })
     v.coverage.update(cov)
     return 'proof'
